@@ -2,6 +2,7 @@ package odt
 
 import (
 	"encoding/xml"
+	"fmt"
 	"strconv"
 	"strings"
 )
@@ -119,6 +120,19 @@ func attrValue(start xml.StartElement, local string) string {
 // <text:s>, <text:tab> and <text:line-break> become spaces, a tab and a newline.
 // Other inline elements (notes, frames, fields, bookmarks, ...) are skipped.
 func decodeInlineContent(d *xml.Decoder, styleName string) ([]spanXML, error) {
+	return decodeInlineContentAt(d, styleName, 0)
+}
+
+// maxInlineDepth is how deep <text:span> and <text:a> may nest inside a paragraph
+// (the limit encoding/xml applies to the elements it unmarshals itself). Each
+// level is one level of recursion here: three million nested spans, 70 KB as a
+// compressed content.xml, ended the process with a stack overflow.
+const maxInlineDepth = 10000
+
+func decodeInlineContentAt(d *xml.Decoder, styleName string, depth int) ([]spanXML, error) {
+	if depth > maxInlineDepth {
+		return nil, fmt.Errorf("inline content nested deeper than %d levels", maxInlineDepth)
+	}
 	var spans []spanXML
 	for {
 		token, err := d.Token()
@@ -139,7 +153,7 @@ func decodeInlineContent(d *xml.Decoder, styleName string) ([]spanXML, error) {
 				if t.Name.Local == "span" {
 					style = attrValue(t, "style-name")
 				}
-				nested, err := decodeInlineContent(d, style)
+				nested, err := decodeInlineContentAt(d, style, depth+1)
 				spans = append(spans, nested...)
 				if err != nil {
 					return spans, err
